@@ -114,7 +114,7 @@ func (k c17sink) DialUDP(network string, laddr, raddr *stdnet.UDPAddr) (stdnet.C
 func (s *c17sys) run() {
 	vnet.SetSink(c17sink{s})
 	s.q = fk.Query(0x4D53, "c17.example.", 1)
-	u, err := NewUpstream("udp://192.0.2.1", Opt{Logger: zap.NewNop()})
+	u, err := NewUpstream("udp://192.0.2.1:5353", Opt{Logger: zap.NewNop()})
 	if err != nil {
 		panic(err)
 	}
@@ -141,9 +141,9 @@ func (s *c17sys) judge(x *vs.Exec) (string, string, string) {
 	}
 	ntcp := 0
 	for _, d := range s.dials {
-		if d == "tcp 192.0.2.1:53" {
+		if d == "tcp 192.0.2.1:5353" {
 			ntcp++
-		} else if d != "udp 192.0.2.1:53" {
+		} else if d != "udp 192.0.2.1:5353" {
 			return "dial", "wrong-dial-target", "dial to " + d + "\n" + desc
 		}
 	}
